@@ -41,7 +41,7 @@ theorem getType_of_find' {ts : TypeSystem} {n : String} {t : TypeRec} (h : find?
 /-- primitive array: the elements are parsed at once -/
 theorem parseFs_arr_prim (K : Consts) (ts : TypeSystem) (tsIdx : Nat) (s : RState) (ty : String) (x : Int)
     (el : Option JV) (t : TypeRec) (f : Feature) (ev : Val)
-    (hty : ty.endsWith "[]" = false) (hgt : getType ts ty = .ok t)
+    (hty : ty.endsWith "[]" = false) (hgt : getTypeExact ts ty = .ok t)
     (hf : allFeatures t = [f]) (hn : f.name = "elements")
     (hpa : isPrimitiveArray K t.name = true) (hpp : parsePrimArray t.name el = .ok ev)
     (hann : isInstanceOf ts t.name ANNOTATION = false) :
@@ -56,7 +56,7 @@ theorem parseFs_arr_prim (K : Consts) (ts : TypeSystem) (tsIdx : Nat) (s : RStat
 /-- FSArray: the element ids are deferred -/
 theorem parseFs_arr_fs (K : Consts) (ts : TypeSystem) (tsIdx : Nat) (s : RState) (ty : String) (x : Int)
     (el : Option JV) (t : TypeRec) (f : Feature) (ids : List (Option Int))
-    (hty : ty.endsWith "[]" = false) (hgt : getType ts ty = .ok t)
+    (hty : ty.endsWith "[]" = false) (hgt : getTypeExact ts ty = .ok t)
     (hf : allFeatures t = [f]) (hn : f.name = "elements")
     (hpa : isPrimitiveArray K t.name = false) (hfa : t.name = FS_ARRAY)
     (hids : (match el with
@@ -234,7 +234,7 @@ theorem parseArr_collJ : ParseArrStmt := by
   have ho' : o1 = o := Option.some.inj (ho1.symm.trans ho)
   subst ho'
   have hty : o1.ty.endsWith "[]" = false := (hj o1 t ho hfind).1
-  have hgt : getType ts o1.ty = .ok t := getType_of_find' hfind
+  have hgt : getTypeExact ts o1.ty = .ok t := getTypeExact_of_find hfind
   have hann' : isInstanceOf ts t.name ANNOTATION = false := by rw [htn]; exact hann
   rcases hcase with ⟨hfs, hpa, l, rfl⟩ | ⟨hfs, hpa, hprim⟩
   · -- FSArray
